@@ -262,10 +262,16 @@ def check_block(block, effects_override=None):
         return [k for k in range(nh) if handlers[k]["start"] <= pc < handlers[k]["end"]]
 
     region_cache = {}
-    work = [(0, (entry_env, 0, 0), tuple([None] * len(tracked)), (), None)]
+    # A path is *abrupt* while one of the dispatch registers holds a non-zero constant (a break / continue /
+    # return is pending and a finally block is running): a pending `return` parks its value (and, when the return
+    # comes from a generator resumed inside an argument list, the half-built call) on the value stack, so such
+    # paths legitimately differ in depth from normal ones. After the JumpTable has dispatched them they are
+    # *tails*: a tail must agree with the normal paths it meets (break / continue), tails among themselves are
+    # not compared (return epilogues).
+    work = [(0, (entry_env, 0, 0), tuple([None] * len(tracked)), (), False, None)]
     steps = 0
     while work:
-        pc, st, idx, hent, frm = work.pop()
+        pc, st, idx, hent, tail, frm = work.pop()
         steps += 1
         if steps > 400000:
             F.append(Finding("analysis-budget", pc, "state exploration exceeded its budget"))
@@ -273,30 +279,39 @@ def check_block(block, effects_override=None):
         if pc not in starts:
             continue
         env, bnd, val = st
-        # keep the recorded entry depths only for protected regions that contain this pc; record on entry
         if pc not in region_cache:
             region_cache[pc] = regions_at(pc)
         inside = region_cache[pc]
-        hd = dict(hent)
-        hd = {k: v for k, v in hd.items() if k in inside}
+        hd = {k: v for k, v in dict(hent).items() if k in inside}
         for k in inside:
             if k not in hd:
                 hd[k] = (bnd, val)
         hent = tuple(sorted(hd.items()))
-        key = (idx, hent)
+        abrupt = any(v not in (None, 0) for v in idx)
+        special = abrupt or tail
+        key = (idx, hent, (bnd, val, tail) if special else None)
         seen = states.setdefault(pc, {})
         if key in seen:
             if seen[key] != st:
                 F.append(Finding("merge", pc, "paths reach this instruction with (env,binding,value) depths %s and %s (second path from %s)" % (seen[key], st, frm)))
             continue
-        # paths that agree on the dispatch registers must agree on the depths whatever their history
-        for (oidx, ohent), ost in seen.items():
-            if oidx == idx and ost != st and ohent == hent:
-                F.append(Finding("merge", pc, "paths reach this instruction with depths %s and %s" % (ost, st)))
-        if len(seen) >= 32:
+        if not abrupt:
+            for (oidx, ohent, ospecial), ost in seen.items():
+                o_abrupt = any(v not in (None, 0) for v in oidx)
+                if o_abrupt:
+                    continue
+                o_tail = bool(ospecial and ospecial[2])
+                if tail and o_tail:
+                    continue
+                if (tail or o_tail) and ost != st:
+                    F.append(Finding("merge", pc, "a path leaving a finally block reaches this instruction with depths %s, the normal path with %s (from %s)" % (
+                        st if tail else ost, ost if tail else st, frm)))
+                    break
+        if len(seen) >= 48:
             continue
         seen[key] = st
-        state.setdefault(pc, st)
+        if not special:
+            state.setdefault(pc, st)
         i = ins[starts[pc]]
         op, a = i["op"], i["_a"]
         if effects_override and op in effects_override:
@@ -328,12 +343,12 @@ def check_block(block, effects_override=None):
                 l[tpos[dst[1]]] = v
                 nidx = tuple(l)
         if op not in NO_THROW and inside:
-            # innermost handler = the last pushed one whose range contains pc (CodeBlock::find_handler searches in reverse)
             k = max(inside)
             h = handlers[k]
             eb, ev = hd[k]
-            work.append((h["end"], (h["environment_count"], eb, ev), nidx, hent, "exception@%d" % pc))
+            work.append((h["end"], (h["environment_count"], eb, ev), nidx, hent, tail, "exception@%d" % pc))
         succ = []
+        ntail = tail
         if op in UNCONDITIONAL_EXIT:
             pass
         elif op in JUMP_ALWAYS:
@@ -342,19 +357,26 @@ def check_block(block, effects_override=None):
             succ = [a["address"][1], i["next"]]
         elif op == "JumpTable":
             addrs = [v for (_, v) in a.get("addresses", ("list", []))[1]]
-            kk = idx[tpos[a["index"][1]]] if a.get("index") and a["index"][1] in tpos else None
+            reg = a["index"][1] if a.get("index") else None
+            kk = idx[tpos[reg]] if reg in tpos else None
             if kk is not None and 0 <= kk < len(addrs):
                 succ = [addrs[kk]]
+                if kk >= 1:
+                    ntail = True
             elif kk is not None:
                 succ = [i["next"]]
             else:
                 succ = addrs + [i["next"]]
+            if reg in tpos:
+                l = list(nidx)
+                l[tpos[reg]] = None
+                nidx = tuple(l)
         else:
             succ = [i["next"]]
         for sx in succ:
             if sx == nbytes:
                 continue
-            work.append((sx, nst, nidx, hent, pc))
+            work.append((sx, nst, nidx, hent, ntail, pc))
     # handler environment_count must equal the env depth of the protected region's first instruction or be reachable
     for h in handlers:
         st = state.get(h["start"])
